@@ -129,6 +129,10 @@ class Interp:
                 env['**' + a.kwarg.arg] = kwargs
         elif kwargs:
             self.unsupported('unexpected keyword(s) %s for %s' % (sorted(kwargs), fsym.qname), node)
+        rec = None
+        if fsym.qname in self.watch:
+            rec = {'params': dict(env), 'ret': None, 'caller': self.cur.qname if self.cur else ''}
+            self.watch[fsym.qname].append(rec)
         self.depth += 1
         if self.depth > 60:
             raise AnalysisError('call depth exceeded at %s' % fsym.qname)
@@ -165,8 +169,8 @@ class Interp:
             val = v if val is None else join(val, v)
             heap = h if heap is None else join_heap(heap, h)
         st.heap = heap
-        if fsym.qname in self.watch:
-            self.watch[fsym.qname].append((args, kwargs, val))
+        if rec is not None:
+            rec['ret'] = val
         return val
 
     def eval_in_module(self, node, mod):
